@@ -22,8 +22,10 @@ void GMGPolar::solve()
     t_solve_multigrid_iterations  = 0.0;
     t_check_convergence           = 0.0;
     t_check_exact_error           = 0.0;
-    VERIF_EV("SolveEnter", "\"normsSz\":%d,\"errsSz\":%d,\"fgs\":%d", (int)residual_norms_.size(),
-             (int)exact_errors_.size(), (int)full_grid_smoothing_);
+    VERIF_EV("SolveEnter", "\"normsSz\":%d,\"errsSz\":%d,\"fgs\":%d,\"tZero\":%d", (int)residual_norms_.size(),
+             (int)exact_errors_.size(), (int)full_grid_smoothing_,
+             (int)(t_solve_total == 0.0 && t_solve_initial_approximation == 0.0 && t_solve_multigrid_iterations == 0.0 &&
+                   t_check_convergence == 0.0 && t_check_exact_error == 0.0));
 
     /* ---------------------------- */
     /* Initialize starting solution */
